@@ -52,6 +52,61 @@ def cases(rng, tier):
     return [one(rng, "open_new") for _ in range(n)]
 
 
+# ---------------------------------------------------------------- system level: the OPEN on the wire
+import engine
+import sysprop as S
+import sysrun
+
+
+class Sessions:
+    """several consecutive sessions with one peer object (the outbound FSM object is reused across reconnects; an inbound FSM
+    is created per connection): the remote proposes a lower / zero / higher hold time and different identifiers, ends the
+    session, and the next OPEN corebgp sends must again be exactly the configured one"""
+    no_model = True
+
+    def __init__(self, sid, direction, las, hold, caps, remote_holds):
+        self.sid, self.direction, self.las, self.hold, self.caps, self.remote_holds = sid, direction, las, hold, caps, remote_holds
+        self.tag = "open-on-wire.%s.as%d.hold%d.caps%d.%s" % (direction, las, hold, len(caps), "-".join(map(str, remote_holds)))
+        self.remote_id = 0x0A000002
+
+    def scenario(self):
+        st = []
+        ka = S.frame(S.KEEPALIVE).hex()
+        for k, rh in enumerate(self.remote_holds):
+            c = "c%d" % (k + 1)
+            st += [["dial", c]] if self.direction == "in" else [["accept", c, 2500]]
+            st += [["recv", c, 1, 1500], ["send", c, S.frame(S.OPEN, S.open_body(65000, hold=rh)).hex(), 0], ["send", c, ka, 0],
+                   ["recv", c, 2, 1500], ["sleep", 20]]
+            st += [["send", c, S.frame(S.NOTIF, S.notif_body(6, 4)).hex(), 0], ["recv_eof", c, 800], ["sleep", 30]] if k % 2 == 0 else \
+                  [["close", c], ["recv_eof", c, 800], ["fullclose", c], ["sleep", 30]]
+        return {"id": self.sid, "local_as": self.las, "remote_as": 65000, "local_id": 0x0A000001, "hold": self.hold,
+                "passive": self.direction == "in", "idle_hold_ms": 60, "connect_retry_ms": 300,
+                "caps": [[c, v.hex()] for c, v in self.caps], "on_open": None, "handler": [], "est_writes": [], "steps": st}
+
+    def model_case(self):
+        return None
+
+
+def sys_items(rng, tier):
+    out = []
+    sid = 0
+    capsets = [[], [(1, bytes([0, 1, 0, 1]))], [(1, bytes([0, 1, 0, 1])), (2, b""), (65, bytes(4)), (70, bytes(3))]]
+    for direction in ("out", "in"):
+        for las in (65001, 4200000001):
+            for hold, rholds in ((90, (30, 90, 0, 240)), (240, (0, 240, 3)), (0, (90, 0)), (3, (65535, 3, 10))):
+                out.append(Sessions(sid, direction, las, hold, rng.choice(capsets), rholds))
+                sid += 1
+    return out
+
+
+def sys_part(tier, rng, rep, replay):
+    cov = sysrun.run_convs(PID, sys_items(rng, tier), rep, par=16)
+    cov["rule"] = ("consecutive sessions per peer object (3-4 reconnects, both directions, 2- and 4-octet local AS, hold 0/3/90/240, "
+                   "plugin capability sets incl. a 4-octet-AS capability to be dropped) with the remote proposing lower, zero and higher "
+                   "hold times: the first message on every connection must be exactly the OPEN the configuration dictates")
+    return cov
+
+
 def main(tier, seed, replay=None):
     import sys
-    return fnprop.run(sys.modules[__name__], tier, seed, replay)
+    return engine.run_property(sys.modules[__name__], tier, seed, replay)
